@@ -5,6 +5,7 @@ CONSTANTS
     DebugAsserts = TRUE
     FailKinds = {"err", "death", "stop"}
     Arities = {0, 1, 2, 3, 4, 5, 6}
+    BpChoice = "all"
     Emit = "term"
 SPECIFICATION Spec
 INVARIANTS HappyPathOk TypeOK
